@@ -784,6 +784,29 @@ func registerLibIntrinsics() {
 		o.str = p
 		return nil, true
 	}
+	// reading drains the buffer (the decoded packet's Data is such a buffer)
+	I["io.ReadAll"] = func(in *Interp, fr *frame, args []Value) (Value, bool) {
+		it, ok := args[0].(Iface)
+		if !ok || it.T == nil {
+			fr.tpanic("nil-deref", in.runtimeError("invalid memory address or nil pointer dereference"))
+		}
+		p, _ := it.V.(*Value)
+		if p == nil {
+			if o, ok := it.V.(*Obj); ok && o.Kind == "buffer" {
+				out := o.str
+				o.str = Str{}
+				return Tuple{SymBytes{s: out}, Iface{}}, true
+			}
+			in.unsupported("io.ReadAll of %v", it.T)
+		}
+		o := in.side[p]
+		if o == nil || o.Kind != "buffer" {
+			in.unsupported("io.ReadAll of %v", it.T)
+		}
+		out := o.str
+		o.str = Str{}
+		return Tuple{SymBytes{s: out}, Iface{}}, true
+	}
 	I["(*bytes.Buffer).Reset"] = func(in *Interp, fr *frame, args []Value) (Value, bool) {
 		buf(in, args[0]).str = Str{}
 		return nil, true
@@ -844,7 +867,13 @@ func registerLibIntrinsics() {
 	}
 
 	I["time.Now"] = func(in *Interp, fr *frame, args []Value) (Value, bool) {
-		return in.zero(fr.curInstr.(ssa.Value).Type()), true
+		// an instant that is not the zero Time (ext = 1 second): SetDeadline(time.Time{})
+		// clears a deadline, SetDeadline(time.Now()...) sets one that has expired
+		z := in.zero(fr.curInstr.(ssa.Value).Type())
+		if st, ok := z.(Struct); ok && len(st) >= 2 {
+			st[1] = Int(1)
+		}
+		return z, true
 	}
 	I["regexp.MustCompile"] = func(in *Interp, fr *frame, args []Value) (Value, bool) {
 		c := in.needConcrete(fr, "regexp.MustCompile", args[0])
